@@ -4,7 +4,7 @@
 # excluded and regenerated here.
 set -e
 ws="$1"; w="/work/$ws/verif"
-base=$(git -C "$w" merge-base HEAD origin/master 2>/dev/null || git -C "$w" rev-list --max-parents=0 HEAD | tail -1)
+base=$(git -C "$w" merge-base HEAD origin/main 2>/dev/null || git -C "$w" rev-list --max-parents=0 HEAD | tail -1)
 git -C "$w" diff --binary "$base" HEAD -- . ':!MANIFEST.json' ':!lean/Driver/Main.lean' ':!known-findings.txt' \
     ':!harness/engine.py' ':!evidence' > "/tmp/merge-$ws.patch"
 cd /verif
